@@ -52,7 +52,9 @@ def _case(draw, tier):
         runs = draw(
             st.lists(st.tuples(st.integers(0, 2), history.st_count(eps),
                                st.sampled_from([0, 0, 1, 2, 2, 3, 3, 4, 4, 5,
-                                                6, 6, 7, 8])).map(list),
+                                                6, 6, 7, 8]),
+                               st.one_of(st.none(), st.none(),
+                                         st.integers(0, 12))).map(list),
                      min_size=1,
                      max_size=7))
         ops.append({
@@ -134,14 +136,25 @@ def run_case(case, ctx):
                     ctx.fail("order", ("not-write-order",),
                              f"{split} session {s_no}: shards {shard_ids} vs "
                              f"writes {[r['id'] for r in writes]}")
-                # change events
-                pos = 0
+                # change events: a call (accepted OR rejected -- a rejected
+                # call with other metadata still is a metadata change as far
+                # as the shard layout is concerned) whose non-empty metadata
+                # differs from the latest non-empty metadata passed before it
+                # in this (session, split).
                 last_nonempty = None
-                latest_before = {}  # write index -> last non-empty meta before
-                for idx, r in enumerate(writes):
-                    latest_before[idx] = last_nonempty
+                change_since_prev_write = []  # per accepted write
+                pending_change = False
+                for r in h.calls[split]:
+                    if r["session"] != s_no:
+                        continue
                     if r["meta"]:
+                        if last_nonempty and r["meta"] != last_nonempty:
+                            pending_change = True
                         last_nonempty = r["meta"]
+                    if r["id"] is not None:
+                        change_since_prev_write.append(pending_change)
+                        pending_change = False
+                pos = 0
                 changes = []
                 for k, ids in enumerate(shard_ids):
                     pos += len(ids)
@@ -150,17 +163,16 @@ def run_case(case, ctx):
                     if len(ids) == eps:
                         continue
                     nxt = writes[pos]  # the write that opened the next shard
-                    prev = latest_before[pos]
-                    allowed = bool(nxt["meta"]) and bool(prev) and \
-                        nxt["meta"] != prev
-                    if not allowed:
+                    if not change_since_prev_write[pos]:
                         ctx.fail(
                             "full", ("short-shard-without-metadata-change",),
                             f"{split} session {s_no}: shard #{k} has "
-                            f"{len(ids)}<{eps} examples but the next write "
-                            f"(id {nxt['id']}, meta {nxt['meta']}) is no "
-                            f"metadata change (previous non-empty: {prev}); "
-                            f"layout {[len(x) for x in shard_ids]}")
+                            f"{len(ids)}<{eps} examples but no call between "
+                            f"its last example and the next shard's first "
+                            f"(id {nxt['id']}, meta {nxt['meta']}) changed "
+                            f"the metadata; layout "
+                            f"{[len(x) for x in shard_ids]}; calls "
+                            f"{[(c['id'], c['meta']) for c in h.calls[split] if c['session'] == s_no]}")
                     changes.append(pos % eps)
                 cnt = len(writes)
                 if (len(shard_ids) >= 2 and cnt % eps in (0, 1, eps - 1)) \
